@@ -49,10 +49,23 @@ ASSUMPTIONS = [
     'this is a monitored hypothesis and is NOT claimed (uniq=0) when a liquid–liquid immiscible pair is present '
     '(Water with Butanol/Octane/Hexane/Benzene/Toluene, Methanol with Octane/Hexane), where the one-liquid-phase dew '
     'equation has several roots',
-    'known-finding signatures (`…:documented-path:<class>`) are issued only when the documented algorithm of the method, '
-    're-run by the oracle on the object\'s own residual functions, ends at the very value the call returned AND the input '
-    'is in a documented class (immiscible pair / ideal guess stalled / secant diverges / trace component); every other '
-    'non-root is `…:undocumented` or `…:wrong-equation` and is never listed',
+    'known-finding signatures (`…:documented-path:<class>`) are issued only when the FROZEN reference implementation of '
+    'the documented algorithm kept in this file (class Frozen: own residual functions built from chemical.Psat and fresh '
+    'Gamma/Phi/PCF, literal tolerances 1e-9 K / 1e-3 Pa, maxiter 50, literal brackets; bit-identical to the code on the '
+    'unchanged tree) ends at the very value the call returned AND the input is in a documented class (immiscible pair / '
+    'ideal guess stalled / secant diverges / trace component); every other non-root — changed tolerances, iteration '
+    'limits, brackets or residual functions included, with or without an immiscible pair — is `…:undocumented` or '
+    '`…:wrong-equation` and is never listed',
+    'what the correspondence carries: `pt` lines compare the code\'s claim (residual 0 at the returned point; for a '
+    'single component the returned value itself against Chemical.Tsat/Psat) with the residual / fractions the Lean model '
+    'recomputes from the recorded Psat, γ, φ, pcf; `ordP/ordT/sameT/sameP` lines compare the verdict on the RETURNED '
+    'values with the one the model derives from recorded vapour pressures and κ_i; the returned T or P of a '
+    'multi-component call is a parameter of the model (`Input.ret`), so `val` is an echo there',
+    'relations (round trip, ordering, scaling, permutation) are claimed unless the pair is outside the uniqueness '
+    'hypothesis or one side is a listed documented non-root; a side that failed for any other reason keeps the claim',
+    'the vapour is ideal (φ = 1) in every generated package — the quantifier names ideal and activity-coefficient '
+    'packages only; with a non-ideal Phi the single-component shortcut and the general equation disagree by 1–20 %, '
+    'which is outside the property',
     'field-vs-float gap: the theorems are over ordered fields; the driver evaluates the same definitions in binary64',
 ]
 TRUSTED = ['Lean 4.33 kernel', 'harness/props/c08.py + lean/Driver/C08.lean',
@@ -62,8 +75,8 @@ NAMES = ['Water', 'Ethanol', 'Methanol', 'Propanol', 'Butanol', 'Octane', 'Hexan
 IMMISCIBLE = {frozenset(p) for p in
               [('Water', x) for x in ('Butanol', 'Octane', 'Hexane', 'Benzene', 'Toluene')] +
               [('Methanol', 'Octane'), ('Methanol', 'Hexane')]}
-PKG_NAMES = ['ideal', 'dortmund', 'dortmund+pcf']
-PKG_KEY = [(0, 0, 0), (1, 0, 0), (1, 0, 1)]        # (gamma class, phi class, pcf class) ids for the cache model
+PKG_NAMES = ['ideal', 'dortmund', 'dortmund+pcf', 'dortmund+srk']
+PKG_KEY = [(0, 0, 0), (1, 0, 0), (1, 0, 1), (1, 1, 0)]        # (gamma class, phi class, pcf class) ids for the cache model
 RES_TOL_MULTI, RES_TOL_SINGLE, FRAC_TOL = 1e-5, 1e-5, 1e-4
 T_SAME, P_SAME = 2e-3, 2e-5
 KS = [1e-3, 1.0, 1e3]
@@ -112,10 +125,188 @@ def thermo_for(ids, pkg):
         cs = tmo.Chemicals([CH[i] for i in ids])
         if pkg == 0: th = tmo.Thermo(cs, Gamma=eq.IdealActivityCoefficients, cache=False)
         elif pkg == 1: th = tmo.Thermo(cs, cache=False)
-        else: th = tmo.Thermo(cs, PCF=eq.IdealGasPoyintingCorrectionFactors, cache=False)
+        elif pkg == 2: th = tmo.Thermo(cs, PCF=eq.IdealGasPoyintingCorrectionFactors, cache=False)
+        else:
+            # package 3 (non-ideal vapour, φ_i ≠ 1) is OUTSIDE the property's quantifier ("ideal and activity-coefficient
+            # packages") and is not generated: there the single-component shortcut (Psat(T) = P) and the general equation
+            # (K = Psat/(φP) = 1) disagree by 1–20 %.  Kept only so that a hand-written replay can use it.
+            th = tmo.Thermo(cs, Phi=eq.SRKFugacityCoefficients, cache=False)
         if len(_THERMO) > 4000: _THERMO.clear()
         _THERMO[key] = th
     return th
+
+
+# --------------------------------------------------------------------------
+# FROZEN reference implementation of the documented algorithms (bubble_point.py / dew_point.py as of /repo commit
+# f3c7130).  Own copy of the residual functions, the inner Wegstein loops, the ideal starting guesses, the literal
+# tolerances, iteration limits and bracket constants.  It uses ONLY chemical.Psat, chemical.Psat.Tmin/Tmax, fresh
+# thermo.Gamma/Phi/PCF instances and flexsolve — never an attribute of the BubblePoint/DewPoint object under test — so
+# that any change inside those objects (tolerances, maxiter, residual functions, brackets) makes the code's answer
+# differ from the reference's.
+# --------------------------------------------------------------------------
+F_MAXITER, F_T_TOL, F_P_TOL = 50, 1e-9, 1e-3
+
+
+class Frozen:
+    def __init__(self, ids, pkg):
+        import flexsolve as flx
+        self.flx = flx
+        th = thermo_for(ids, pkg)
+        chems = [CH[i] for i in ids]
+        self.psat = [c.Psat for c in chems]
+        self.gamma = th.Gamma(chems)
+        self.phi = th.Phi(chems)
+        self.pcf = th.PCF(chems)
+        self.ideal_phi = isinstance(self.phi, tmo.equilibrium.IdealFugacityCoefficients)
+        # vle_domain
+        self.Tmax = min(max(p.Tmax for p in self.psat), 1000.) - 1e-2
+        self.Tmin = max(min(p.Tmin for p in self.psat), 50.) + 1e-2
+        self.Pmin = min(p(self.Tmin) for p in self.psat)
+        self.Pmax = max(p(self.Tmax) for p in self.psat)
+
+    # -- functional.normalize
+    @staticmethod
+    def normalize(a):
+        s = a.sum()
+        if s < 1e-16: return np.ones(a.size) / a.size
+        return a / s
+
+    # -- bubble_point.solve_y / y_iter
+    def solve_y(self, y_phi, T, P):
+        if self.ideal_phi: return y_phi
+        phi = self.phi
+        def y_iter(y, y_phi, phi, T, P):
+            return y_phi / phi(self.normalize(y), T, P)
+        return self.flx.wegstein(y_iter, y_phi, 1e-9, args=(y_phi, phi, T, P), checkiter=False,
+                                 checkconvergence=False, convergenceiter=5, maxiter=F_MAXITER)
+
+    # -- dew_point.solve_x / gamma_iter
+    def solve_x(self, x_guess, x_gamma, T, P):
+        f_gamma, gamma_args = self.gamma.f, self.gamma.args
+        normalize = self.normalize
+        def gamma_iter(gamma, x_gamma, T, P, f_gamma, gamma_args):
+            x = x_gamma / gamma
+            x[x < 1e-32] = 1e-32
+            return f_gamma(normalize(x), T, *gamma_args)
+        x_guess[x_guess < 1e-32] = 1e-32
+        gamma = f_gamma(normalize(x_guess), T, *gamma_args)
+        args = (x_gamma, T, P, f_gamma, gamma_args)
+        gamma = self.flx.wegstein(gamma_iter, gamma, 1e-12, args=args, checkiter=False,
+                                  checkconvergence=False, convergenceiter=5, maxiter=F_MAXITER)
+        try:
+            return x_gamma / gamma
+        except Exception:
+            return x_gamma / gamma_iter(gamma, *args)
+
+    # -- residuals
+    def bub_T_error(self, T, P, z_over_P, z_norm, y):
+        if T <= 0: raise RuntimeError('negative temperature')
+        ps = np.array([i(T) for i in self.psat], dtype=float)
+        y_phi = (z_over_P * ps * self.gamma(z_norm, T) * self.pcf(T, P, ps))
+        y[:] = self.solve_y(y_phi, T, P)
+        return 1. - y.sum()
+
+    def bub_P_error(self, P, T, z_Psat_gamma, ps, y):
+        if P <= 0: raise RuntimeError('negative pressure')
+        y_phi = z_Psat_gamma * self.pcf(T, P, ps) / P
+        y[:] = self.solve_y(y_phi, T, P)
+        return 1. - y.sum()
+
+    def bub_T_error_ideal(self, T, z_over_P, y):
+        y[:] = z_over_P * np.array([i(T) for i in self.psat], dtype=float)
+        return 1 - y.sum()
+
+    def dew_T_error(self, T, P, z_norm, zP, x):
+        if T <= 0: raise RuntimeError('negative temperature')
+        ps = np.array([i(T) for i in self.psat])
+        ps[ps < 1e-16] = 1e-16
+        phi = self.phi(z_norm, T, P)
+        pcf = self.pcf(T, P, ps)
+        x_gamma = phi * zP / ps / pcf
+        x[:] = self.solve_x(x, x_gamma, T, P)
+        return 1 - x.sum()
+
+    def dew_T_error_ideal(self, T, zP, x):
+        ps = np.array([i(T) for i in self.psat])
+        ps[ps < 1e-16] = 1e-16
+        x[:] = zP / ps
+        return 1 - x.sum()
+
+    def dew_P_error(self, P, T, z_norm, z_over_Psats, ps, x):
+        if P <= 0: raise RuntimeError('negative pressure')
+        x_gamma = z_over_Psats * P * self.phi(z_norm, T, P) / self.pcf(T, P, ps)
+        x[:] = self.solve_x(x, x_gamma, T, P)
+        return 1 - x.sum()
+
+    # -- the four solve methods (N ≥ 2, non-reactive); returns (value, ideal T guess stalled)
+    def solve(self, method, zn, spec):
+        flx = self.flx
+        IQ, AS = flx.IQ_interpolation, flx.aitken_secant
+        stalled = False
+        if method == 'bubT':
+            P = spec; a = zn / P
+            f = self.bub_T_error_ideal; y = a.copy()
+            lo, hi = self.Tmin + 10, self.Tmax - 10
+            fmax = f(lo, a, y)
+            if fmax < 0.: Tg = lo
+            else:
+                fmin = f(hi, a, y)
+                if fmin > 0.: Tg = hi
+                else:
+                    Tg = IQ(f, lo, hi, fmax, fmin, None, F_T_TOL, 5e-12, (a, y), checkiter=False, checkbounds=False,
+                            maxiter=F_MAXITER)
+                    stalled = abs(f(Tg, a, y.copy())) > 1e-6
+            g = self.bub_T_error; args = (P, a, zn, y)
+            try:
+                v = AS(g, Tg, Tg + 1e-3, F_T_TOL, 5e-12, args, checkiter=False, maxiter=F_MAXITER)
+            except RuntimeError:
+                v = IQ(g, self.Tmin, self.Tmax, g(self.Tmin, *args), g(self.Tmax, *args), Tg, F_T_TOL, 5e-12, args,
+                       checkiter=False, checkbounds=False, maxiter=F_MAXITER)
+        elif method == 'dewT':
+            P = spec; a = zn * P
+            f = self.dew_T_error_ideal; x = a.copy()
+            lo, hi = self.Tmin + 10., self.Tmax - 10.
+            fmin = f(lo, a, x)
+            if fmin > 0.: Tg = lo
+            else:
+                fmax = f(hi, a, x)
+                if fmax < 0.: Tg = hi
+                else:
+                    Tg = IQ(f, lo, hi, fmin, fmax, None, F_T_TOL, 5e-12, (a, x), checkiter=False, checkbounds=False,
+                            maxiter=F_MAXITER)
+                    stalled = abs(f(Tg, a, x.copy())) > 1e-6
+            g = self.dew_T_error; args = (P, zn, a, x)
+            try:
+                v = AS(g, Tg, Tg + 1e-3, F_T_TOL, 5e-12, args, maxiter=F_MAXITER, checkiter=False)
+            except RuntimeError:
+                v = IQ(g, self.Tmin, self.Tmax, g(self.Tmin, *args), g(self.Tmax, *args), Tg, F_T_TOL, 5e-12, args,
+                       checkiter=False, checkbounds=False, maxiter=F_MAXITER)
+        elif method == 'bubP':
+            T = min(max(spec, self.Tmin), self.Tmax)
+            ps = np.array([q(T) for q in self.psat])
+            zpg = zn * ps * self.gamma(zn, T)
+            Pg = zpg.sum(); y = zpg / Pg
+            g = self.bub_P_error; args = (T, zpg, ps, y)
+            try:
+                v = AS(g, Pg, Pg - 1, F_P_TOL, 1e-9, args, checkiter=False, maxiter=F_MAXITER)
+            except RuntimeError:
+                v = IQ(g, self.Pmin, self.Pmax, g(self.Pmin, *args), g(self.Pmax, *args), Pg, F_P_TOL, 5e-12, args,
+                       checkiter=False, checkbounds=False, maxiter=F_MAXITER)
+        else:
+            T = spec
+            ps = np.array([q(T) for q in self.psat], dtype=float)
+            a = zn / ps
+            Pg = 1. / a.sum(); x = a * Pg
+            g = self.dew_P_error; args = (T, zn, a, ps, x)
+            try:
+                v = AS(g, Pg, Pg - 10, F_P_TOL, 5e-12, args, checkiter=False, maxiter=F_MAXITER)
+            except RuntimeError:
+                v = IQ(g, self.Pmin, self.Pmax, g(self.Pmin, *args), g(self.Pmax, *args), Pg, F_P_TOL, 5e-12, args,
+                       checkiter=False, checkbounds=False, maxiter=F_MAXITER)
+        return float(v), stalled
+
+
+_FROZEN = {}
 
 
 def vec(x, n):
@@ -239,6 +430,7 @@ class Run:
         where = f'{method}{label} {PKG_NAMES[pkg]} {ids} z={z.tolist()} spec={spec!r} -> T={T!r} P={P!r}'
         # ---- oracle on the real result
         ok = not bad_val
+        status = 'ok'          # 'ok' | 'documented' (a listed, documented non-root) | 'bad'
         if single:
             supercrit = spec > cs
             expect = cr if supercrit else sat
@@ -249,6 +441,7 @@ class Run:
                 ok = False
                 if method.endswith('T') and spec == 101325:
                     # Chemical.Tsat returns the tabulated Tb at exactly 1 atm instead of inverting Psat
+                    status = 'documented'
                     self.fail('single:Tb-shortcut', f'{where}: Psat(T)/P − 1 = {-resid:.3e}')
                 else:
                     self.fail(f'{method}:not-a-root:single', f'{where}: Psat(T)/P − 1 = {-resid:.3e}')
@@ -265,29 +458,27 @@ class Run:
                 if abs(zs - 1) > 1e-9 and abs(1. - rv_raw.sum()) <= RES_TOL_MULTI * max(1., zs):
                     cause = ':solves-unnormalised-equation'      # root of the equation written with the raw z
                 else:
-                    own = self.own_residual_diagnosis(obj, method, zn, T, P, frac)
-                    if own == ':wrong-equation' and not negative and not imm:
-                        cause = own
-                    else:
-                        # A non-converged result is a LISTED finding only when (1) the documented algorithm of this
-                        # method (ideal guess → flexsolve.aitken_secant on the object's own residual → bracketing
-                        # fallback, all with checkiter=False), re-run here step by step, ends at the very value the
-                        # call returned, and (2) the input is in one of the documented classes.  Anything else —
-                        # in particular a solver that fails where the documented one converges — is `:undocumented`.
-                        ref, stalled = self.reference_path(obj, method, zn, spec)
-                        documented = ref is not None and math.isfinite(ref) and abs(ref - val) <= 1e-9 * abs(val)
-                        trace = bool(zn[zn > 0].min() < 1e-8)
+                    # A non-root is a LISTED finding only when (1) the FROZEN reference implementation of the documented
+                    # algorithm (class Frozen: own residual functions from chemical.Psat and fresh Gamma/Phi/PCF, literal
+                    # tolerances, iteration limits and brackets — nothing taken from the object under test) ends at the
+                    # very value the call returned, and (2) the input is in one of the documented classes.  Anything
+                    # else — a solver that fails where the documented one converges, changed tolerances, a changed
+                    # residual function, with or without an immiscible pair — is `:undocumented` / `:wrong-equation`.
+                    ref, stalled = self.reference_path(ids, pkg, method, zn, spec)
+                    documented = ref is not None and math.isfinite(ref) and abs(ref - val) <= 1e-9 * abs(val)
+                    trace = bool(zn[zn > 0].min() < 1e-8)
+                    if documented:
+                        status = 'documented'
                         kind = ':negative-fraction' if (negative and not imm) else ':unconverged'
-                        if not documented:
-                            cause = kind + ':undocumented' + imm
-                        elif imm:
-                            cause = kind + ':documented-path' + imm
-                        elif negative:
-                            cause = kind + ':documented-path' + (':trace-component' if trace else ':no-trace-component')
-                        elif stalled:
-                            cause = kind + ':documented-path:ideal-guess-stalled'
-                        else:
-                            cause = kind + ':documented-path:secant-diverges'
+                        if imm: cause = kind + ':documented-path' + imm
+                        elif negative: cause = kind + ':documented-path' + (':trace-component' if trace else ':no-trace-component')
+                        elif stalled: cause = kind + ':documented-path:ideal-guess-stalled'
+                        else: cause = kind + ':documented-path:secant-diverges'
+                    else:
+                        own = self.own_residual_diagnosis(obj, method, zn, T, P, frac)
+                        cause = (own if own == ':wrong-equation' else own + ':undocumented') + imm
+                        if ref is not None and math.isfinite(ref):
+                            where += f' [frozen reference algorithm ends at {ref!r}]'
                 self.fail(f'{method}:not-a-root{cause}',
                           f'{where}: 1 − Σ {"z·K" if which == "B" else "z/K"} = {resid:.6g} with z/Σz and K recomputed '
                           f'from chemical.Psat, thermo.Gamma/Phi/PCF (tolerance {RES_TOL_MULTI})')
@@ -300,85 +491,33 @@ class Run:
             ok = False
             self.fail(f'{method}:not-normalised', f'{where}: fractions {frac.tolist()} sum to {frac.sum()!r}')
         # ---- model line
+        if not ok and status == 'ok': status = 'bad'
         line = self._pt_line(method, Pq, spec, val, sat, cs, cr, z, psat, g, f, c)
-        ans = f'ok {"single" if single else "multi"} val={fbits(val)} res={fbits(0. if single else resid)} afres=* frac={fl(frac)}'
+        # what the CODE claims: the returned point is a root (residual 0).  Only for a listed, documented non-root
+        # (frozen reference reproduces it) is the recomputed residual reported instead; beyond the critical point of
+        # a single component there is no equation (the model reports 0 there as well).
+        claimed = resid if status == 'documented' else 0.
+        ans = f'ok {"single" if single else "multi"} val={fbits(val)} res={fbits(claimed)} afres=* frac={fl(frac)}'
         self.emit(line, ans)
         kappa = g * c * psat / f
-        return dict(val=val, frac=frac, T=T, P=P, kappa=kappa, ok=ok, single=single, uniq=uniq_flag(ids, pkg, z),
-                    z=z.copy(), zn=zn, psat=psat)
+        self.tags.update({f'n={n}', f'N={min(N, 5)}', 'T:%d-%d' % (int(Tq // 40) * 40, int(Tq // 40) * 40 + 40),
+                          'P:1e%d' % int(math.floor(math.log10(max(Pq, 1.)))), 'status:' + status})
+        return dict(val=val, frac=frac, T=T, P=P, kappa=kappa, ok=ok, status=status, single=single,
+                    uniq=uniq_flag(ids, pkg, z), z=z.copy(), zn=zn, psat=psat, method=method)
 
     @staticmethod
-    def reference_path(obj, method, zn, spec):
-        """signature detail only: the documented algorithm of the four solve methods (as in bubble_point.py /
-        dew_point.py after fix C08-1), re-run with flexsolve on the object's own residual functions.
+    def reference_path(ids, pkg, method, zn, spec):
+        """signature detail only: the FROZEN reference implementation (class Frozen) of the documented algorithm.
         Returns (value it ends at | None, ideal T guess did not converge)."""
-        import flexsolve as flx
-        stalled = False
+        key = (tuple(ids), pkg)
+        fz = _FROZEN.get(key)
+        if fz is None:
+            if len(_FROZEN) > 2000: _FROZEN.clear()
+            fz = _FROZEN[key] = Frozen(ids, pkg)
         try:
-            mi = obj.maxiter
-            if method == 'bubT':
-                P = spec; a = zn / P
-                f = obj._T_error_ideal; y = a.copy()
-                lo, hi = obj.Tmin + 10, obj.Tmax - 10
-                fmax = f(lo, a, y)
-                if fmax < 0.: Tg = lo
-                else:
-                    fmin = f(hi, a, y)
-                    if fmin > 0.: Tg = hi
-                    else:
-                        Tg = flx.IQ_interpolation(f, lo, hi, fmax, fmin, None, obj.T_tol, 5e-12, (a, y),
-                                                  checkiter=False, checkbounds=False, maxiter=mi)
-                        stalled = abs(f(Tg, a, y)) > 1e-6
-                g = obj._T_error; args = (P, a, zn, y)
-                try:
-                    v = flx.aitken_secant(g, Tg, Tg + 1e-3, obj.T_tol, 5e-12, args, checkiter=False, maxiter=mi)
-                except RuntimeError:
-                    v = flx.IQ_interpolation(g, obj.Tmin, obj.Tmax, g(obj.Tmin, *args), g(obj.Tmax, *args), Tg,
-                                             obj.T_tol, 5e-12, args, checkiter=False, checkbounds=False, maxiter=mi)
-            elif method == 'dewT':
-                P = spec; a = zn * P
-                f = obj._T_error_ideal; x = a.copy()
-                lo, hi = obj.Tmin + 10., obj.Tmax - 10.
-                fmin = f(lo, a, x)
-                if fmin > 0.: Tg = lo
-                else:
-                    fmax = f(hi, a, x)
-                    if fmax < 0.: Tg = hi
-                    else:
-                        Tg = flx.IQ_interpolation(f, lo, hi, fmin, fmax, None, obj.T_tol, 5e-12, (a, x),
-                                                  checkiter=False, checkbounds=False, maxiter=mi)
-                        stalled = abs(f(Tg, a, x)) > 1e-6
-                g = obj._T_error; args = (P, zn, a, x)
-                try:
-                    v = flx.aitken_secant(g, Tg, Tg + 1e-3, obj.T_tol, 5e-12, args, maxiter=mi, checkiter=False)
-                except RuntimeError:
-                    v = flx.IQ_interpolation(g, obj.Tmin, obj.Tmax, g(obj.Tmin, *args), g(obj.Tmax, *args), Tg,
-                                             obj.T_tol, 5e-12, args, checkiter=False, checkbounds=False, maxiter=mi)
-            elif method == 'bubP':
-                T = min(max(spec, obj.Tmin), obj.Tmax)
-                ps = np.array([q(T) for q in obj.Psats])
-                zpg = zn * ps * obj.gamma(zn, T)
-                Pg = zpg.sum(); y = zpg / Pg
-                g = obj._P_error; args = (T, zpg, ps, y)
-                try:
-                    v = flx.aitken_secant(g, Pg, Pg - 1, obj.P_tol, 1e-9, args, checkiter=False, maxiter=mi)
-                except RuntimeError:
-                    v = flx.IQ_interpolation(g, obj.Pmin, obj.Pmax, g(obj.Pmin, *args), g(obj.Pmax, *args), Pg,
-                                             obj.P_tol, 5e-12, args, checkiter=False, checkbounds=False, maxiter=mi)
-            else:
-                T = spec
-                ps = np.array([q(T) for q in obj.Psats], dtype=float)
-                a = zn / ps
-                Pg = 1. / a.sum(); x = a * Pg
-                g = obj._P_error; args = (T, zn, a, ps, x)
-                try:
-                    v = flx.aitken_secant(g, Pg, Pg - 10, obj.P_tol, 5e-12, args, checkiter=False, maxiter=mi)
-                except RuntimeError:
-                    v = flx.IQ_interpolation(g, obj.Pmin, obj.Pmax, g(obj.Pmin, *args), g(obj.Pmax, *args), Pg,
-                                             obj.P_tol, 5e-12, args, checkiter=False, checkbounds=False, maxiter=mi)
-            return float(v), stalled
+            return fz.solve(method, zn.copy(), spec)
         except Exception:
-            return None, stalled
+            return None, False
 
     @staticmethod
     def own_residual_diagnosis(obj, method, zn, T, P, frac):
@@ -407,36 +546,49 @@ class Run:
                 f'{fl(z)} {fl(psat)} {fl(g)} {fl(f)} {fl(c)}')
 
     # -- relations between two solves ----------------------------------------------
+    # The oracle judges the RETURNED values; the model line recomputes the same relation from independent recorded
+    # quantities (vapour pressures at the returned temperatures, κ_i = γ·pcf·Psat/φ, the returned fractions), so a wrong
+    # returned value shows as a disagreement as well.  A relation is claimed unless the pair is outside the uniqueness
+    # hypothesis (immiscible pair under an activity package) or one side is a listed, documented non-root; a side that
+    # failed for any other reason does NOT switch the claim off.
     def same(self, kind, a, b, what, sig, perm=None):
         """a, b: results that must be the same root (kind 'T' or 'P')."""
         if a is None or b is None: return
-        kb = b['kappa'] if perm is None else b['kappa'][perm]
-        uniq = claim = a['uniq'] and b['uniq'] and a['ok'] and b['ok']
-        single = a['single']
+        pm = (lambda v: v) if perm is None else (lambda v: v[perm])
+        claim = a['uniq'] and b['uniq'] and a['status'] != 'documented' and b['status'] != 'documented'
+        hyp = claim and a['ok'] and b['ok']
         va, vb = a['val'], b['val']
         tol = T_SAME if kind == 'T' else P_SAME * abs(va)
-        same = abs(va - vb) <= tol
-        fb = b['frac'] if perm is None else b['frac'][perm]
-        same_frac = np.abs(a['frac'] - fb).max() <= FRAC_TOL
-        self.emit(f'same {kind} {int(uniq)} {fbits(a["T"] if kind == "T" else va)} {fbits(b["T"] if kind == "T" else vb)} '
-                  f'{fl(a["kappa"])} {fl(kb)}', f'hyp=1 same={int(same and same_frac)}')
+        same = bool(abs(va - vb) <= tol)
+        fb = pm(b['frac'])
+        same_frac = bool(np.abs(a['frac'] - fb).max() <= FRAC_TOL)
+        if kind == 'T':
+            self.emit(f'sameT {int(hyp)} {fl(a["psat"])} {fl(pm(b["psat"]))} {fl(a["frac"])} {fl(fb)}',
+                      f'hyp=1 same={int(same and same_frac)}')
+        else:
+            which = a['method'][:3]
+            self.emit(f'sameP {which} {int(hyp)} {fl(a["z"])} {fl(a["kappa"])} {fl(pm(b["z"]))} {fl(pm(b["kappa"]))} '
+                      f'{fl(a["frac"])} {fl(fb)}', f'hyp=1 pa={fbits(va)} pb={fbits(vb)} same={int(same and same_frac)}')
         if claim and not (same and same_frac):
             self.fail(sig, f'{what}: {va!r} vs {vb!r} (tolerance {tol:.3g}); fractions {a["frac"].tolist()} vs {fb.tolist()}')
-        if not uniq: self.tags.add('uniq=0')
+        self.tags.add('claim=1' if claim else 'claim=0')
 
     def order(self, kind, bub, dew, what):
         if bub is None or dew is None: return
-        uniq = bub['uniq'] and dew['uniq'] and bub['ok'] and dew['ok']
+        claim = bub['uniq'] and dew['uniq'] and bub['status'] != 'documented' and dew['status'] != 'documented'
+        hyp = claim and bub['ok'] and dew['ok']
         if kind == 'T':
-            le = bub['val'] <= dew['val'] + T_SAME
+            le = bool(bub['val'] <= dew['val'] + T_SAME)
+            self.emit(f'ordT {int(hyp)} {fbits(bub["P"])} {fl(bub["z"])} {fl(bub["psat"])} {fl(dew["psat"])} '
+                      f'{fl(bub["kappa"])} {fl(dew["kappa"])}', f'hyp=1 le={int(le)}')
         else:
-            le = dew['val'] <= bub['val'] * (1 + P_SAME)
-        self.emit(f'ord {kind} {int(uniq)} {fbits(bub["val"])} {fbits(dew["val"])} {fl(bub["kappa"])} {fl(dew["kappa"])}',
-                  f'hyp=1 le={int(le)}')
-        if uniq and not le:
+            le = bool(dew['val'] <= bub['val'] * (1 + P_SAME))
+            self.emit(f'ordP {int(hyp)} {fl(bub["z"])} {fl(bub["kappa"])} {fl(dew["kappa"])}',
+                      f'hyp=1 pb={fbits(bub["val"])} pd={fbits(dew["val"])} le={int(le)}')
+        if claim and not le:
             self.fail(f'order-{kind}', f'{what}: bubble {bub["val"]!r} vs dew {dew["val"]!r} '
                                        f'({"T_bubble ≤ T_dew" if kind == "T" else "P_dew ≤ P_bubble"} violated)')
-        if not uniq: self.tags.add('uniq=0')
+        self.tags.add('claim=1' if claim else 'claim=0')
 
 
 def parse_z(s):
@@ -447,6 +599,11 @@ def run_impl(case: Case) -> ImplResult:
     head = case.ops[0].split(' ')
     assert head[0] == 'sys', case.ops[0]
     pkg, ids = int(head[1]), head[2].split(',')
+    # every case starts from empty instance caches, so that a replayed case sees the state it was found in
+    try:
+        tmo.equilibrium.BubblePoint._cached.clear(); tmo.equilibrium.DewPoint._cached.clear()
+    except Exception:
+        pass
     r = Run(ids, pkg)
     for line in case.ops[1:]:
         t = line.split(' ')
@@ -459,14 +616,14 @@ def run_impl(case: Case) -> ImplResult:
             mT, mP = which + 'T', which + 'P'
             if start == 'T':
                 a = r.solve(mP, spec, z)
-                if a is None or not a['ok'] or not (5e2 <= a['val'] <= 3e7): continue
+                if a is None or a['status'] == 'documented' or not (5e2 <= a['val'] <= 3e7): continue
                 b = r.solve(mT, a['val'], z)
                 if b is not None:
                     a2 = dict(a); a2['val'] = spec
                     r.same('T', a2, b, f'{which} T→P→T from T={spec!r} via P={a["val"]!r}', f'roundtrip:{which}:T-P-T')
             else:
                 a = r.solve(mT, spec, z)
-                if a is None or not a['ok']: continue
+                if a is None or a['status'] == 'documented' or not (150. <= a['val'] <= 700.): continue
                 b = r.solve(mP, a['val'], z)
                 if b is not None:
                     a2 = dict(a); a2['val'] = spec; a2['T'] = b['T']
@@ -476,10 +633,6 @@ def run_impl(case: Case) -> ImplResult:
             bub = r.solve('bub' + kind, spec, z)
             dew = r.solve('dew' + kind, spec, z)
             r.order(kind, bub, dew, f'{PKG_NAMES[pkg]} {ids} z={z.tolist()} at {"P" if kind == "T" else "T"}={spec!r}')
-            if kind == 'P' and pkg == 0 and bub is not None and dew is not None and not bub['single']:
-                # ideal package: the closed forms _Py_ideal / _Px_ideal
-                r.emit(f'idealP {fl(z)} {fl(bub["psat"])}',
-                       f'pb={fbits(bub["val"])} pd={fbits(dew["val"])} le={int(dew["val"] <= bub["val"] * (1 + 1e-12))}')
         elif op == 'scale':
             method, spec, k, z = t[1], float(t[2]), float(t[3]), np.array(parse_z(t[4]))
             a = r.solve(method, spec, z)
@@ -565,30 +718,35 @@ def _close(a, b, rtol, atol):
 def compare(impl, model):
     if impl == model: return True
     if model.startswith('hyp=0'): return True           # hypothesis not met: the model claims nothing
+    a, b = _kv(impl), _kv(model)
     if impl.startswith('ok ') and model.startswith('ok '):
         if impl.split(' ')[1] != model.split(' ')[1]: return False
-        a, b = _kv(impl), _kv(model)
         if not _close(from_fbits(a['val']), from_fbits(b['val']), 1e-12, 0): return False
-        if not _close(from_fbits(a['res']), from_fbits(b['res']), 1e-9, 1e-9): return False
+        # impl: what the code claims (0: "this is a root"); model: residual recomputed from the recorded parameters
+        tol = RES_TOL_SINGLE if impl.startswith('ok single') else RES_TOL_MULTI
+        ra, rb = from_fbits(a['res']), from_fbits(b['res'])
+        if not (_close(ra, rb, 1e-9, tol)): return False
         fa, fb = a['frac'].split(','), b['frac'].split(',')
         if len(fa) != len(fb): return False
-        ok = True
-        for x, y in zip(fa, fb):
-            x, y = from_fbits(x), from_fbits(y)
-            # outside the residual tolerance the returned y and the model's normalised Raoult vector may differ;
-            # the oracle reports that case (`not-a-root`)
-            if abs(from_fbits(a['res'])) <= RES_TOL_MULTI and not _close(x, y, 0, FRAC_TOL): ok = False
-        return ok
-    if impl.startswith('pb=') and model.startswith('pb='):
-        a, b = _kv(impl), _kv(model)
-        return (_close(from_fbits(a['pb']), from_fbits(b['pb']), 1e-7, 0)
-                and _close(from_fbits(a['pd']), from_fbits(b['pd']), 1e-7, 0) and a['le'] == b['le'])
+        if abs(ra) <= tol:      # (a listed, documented non-root carries its recomputed residual: its fractions are not a claim)
+            for x, y in zip(fa, fb):
+                if not _close(from_fbits(x), from_fbits(y), 0, FRAC_TOL): return False
+        return True
+    if impl.startswith('hyp=1') and model.startswith('hyp=1'):
+        for k in ('le', 'same'):
+            if (k in a or k in b) and a.get(k) != b.get(k): return False
+        for k in ('pb', 'pd', 'pa'):
+            if k in a and k in b and not _close(from_fbits(a[k]), from_fbits(b[k]), 3e-5, 0): return False
+        return True
     return False
 
 
 def model_tags(line):
-    if line.startswith('hyp=0'): return ['hyp-unmet']
-    if line.startswith('hyp=1'): return ['hyp-met']
+    if line.startswith('hyp='):
+        d = _kv(line)
+        t = ['hyp-met' if d['hyp'] == '1' else 'hyp-unmet']
+        if 'mono' in d: t.append('kappa-monotone=' + d['mono'])
+        return t
     if line.startswith('ok single'): return ['single']
     if line.startswith('ok multi'):
         d = _kv(line)
